@@ -32,6 +32,7 @@ struct Case {
     e: i32,                           // Gaussian only: features are x * 2^e
     ecol: Vec<i32>,                   // Gaussian only: column j additionally times 2^ecol[j] (empty = none)
     backend: String,                  // Gaussian only: "dense" | "ndarray" | "ndarray-f" | "nalgebra"
+    built: String,                    // builder-call order to use ("" = rotate with the run number)
     a_num: i64,
     a_den: i64,                       // alpha = a_num / a_den
     thr2: Option<i64>,                // Bernoulli: binarize threshold = thr2 / 2
@@ -53,12 +54,16 @@ fn mat(rows: &[Vec<i64>], exps: &[i32]) -> M {
 /// (status, classes, class_count, priors, theta, var, predStatus, preds) of a Gaussian fit on any back end
 type GaussOut = (String, Vec<f64>, Vec<usize>, Vec<f64>, Vec<Vec<f64>>, Vec<Vec<f64>>, String, Vec<f64>);
 
-fn gauss_on<MM: smartcore::linalg::Matrix<f64>>(x: &MM, y: &[f64], priors: &Option<Vec<f64>>, q: &MM) -> GaussOut {
+fn gauss_on<MM: smartcore::linalg::Matrix<f64>>(x: &MM, y: &[f64], priors: &Option<Vec<f64>>, q: &MM, fields: bool) -> GaussOut {
     use smartcore::linalg::BaseVector;
     let yv = MM::RowVector::from_array(y);
     let mut par = GaussianNBParameters::default();
     if let Some(pf) = priors {
-        par = par.with_priors(pf.clone());
+        if fields {
+            par.priors = Some(pf.clone()); // direct field assignment
+        } else {
+            par = par.with_priors(pf.clone());
+        }
     }
     match GaussianNB::fit(x, &yv, par) {
         Err(_) => ("err".into(), vec![], vec![], vec![], vec![], vec![], "none".into(), vec![]),
@@ -74,7 +79,7 @@ fn gauss_on<MM: smartcore::linalg::Matrix<f64>>(x: &MM, y: &[f64], priors: &Opti
     }
 }
 
-fn gauss_backend(backend: &str, xr: &[Vec<f64>], y: &[f64], priors: &Option<Vec<f64>>, qr: &[Vec<f64>]) -> GaussOut {
+fn gauss_backend(backend: &str, xr: &[Vec<f64>], y: &[f64], priors: &Option<Vec<f64>>, qr: &[Vec<f64>], fields: bool) -> GaussOut {
     let flat = |r: &[Vec<f64>]| -> Vec<f64> { r.iter().flatten().cloned().collect() };
     let nd_f = |r: &[Vec<f64>]| -> ndarray::Array2<f64> {
         // the same logical matrix stored column-major
@@ -90,11 +95,11 @@ fn gauss_backend(backend: &str, xr: &[Vec<f64>], y: &[f64], priors: &Option<Vec<
     let p = xr[0].len();
     match backend {
         "ndarray" => gauss_on(&ndarray::Array2::from_shape_vec((xr.len(), p), flat(xr)).unwrap(), y, priors,
-                              &ndarray::Array2::from_shape_vec((qr.len(), p), flat(qr)).unwrap()),
-        "ndarray-f" => gauss_on(&nd_f(xr), y, priors, &nd_f(qr)),
+                              &ndarray::Array2::from_shape_vec((qr.len(), p), flat(qr)).unwrap(), fields),
+        "ndarray-f" => gauss_on(&nd_f(xr), y, priors, &nd_f(qr), fields),
         "nalgebra" => gauss_on(&nalgebra::DMatrix::from_row_slice(xr.len(), p, &flat(xr)), y, priors,
-                               &nalgebra::DMatrix::from_row_slice(qr.len(), p, &flat(qr))),
-        _ => gauss_on(&DenseMatrix::from_2d_vec(&xr.to_vec()), y, priors, &DenseMatrix::from_2d_vec(&qr.to_vec())),
+                               &nalgebra::DMatrix::from_row_slice(qr.len(), p, &flat(qr)), fields),
+        _ => gauss_on(&DenseMatrix::from_2d_vec(&xr.to_vec()), y, priors, &DenseMatrix::from_2d_vec(&qr.to_vec()), fields),
     }
 }
 
@@ -158,7 +163,17 @@ fn fit_event(run: i64, c: &Case) -> Value {
     let x = mat(&c.x, &exps);
     let y: Vec<f64> = c.y.iter().map(|&v| v as f64).collect();
     let q = mat(&c.queries, &exps);
-    let mut ev = json!({"run": run, "ev": "NBFit", "variant": c.variant, "tag": c.tag, "X": c.x, "y": c.y, "e": c.e,
+    // the order in which the parameter object is built rotates with the run number: every
+    // permutation of the with_* calls the variant has, plus direct field assignment
+    let orders: &[&str] = match c.variant.as_str() {
+        "gaussian" => &["priors", "fields"],
+        "multinomial" => &["alpha,priors", "priors,alpha", "fields"],
+        "bernoulli" => &["alpha,priors,binarize", "alpha,binarize,priors", "priors,alpha,binarize", "priors,binarize,alpha",
+                         "binarize,alpha,priors", "binarize,priors,alpha", "fields"],
+        _ => &["alpha", "fields"],
+    };
+    let built: &str = if c.built.is_empty() { orders[(run as usize + c.x.len()) % orders.len()] } else { c.built.as_str() };
+    let mut ev = json!({"run": run, "ev": "NBFit", "variant": c.variant, "tag": c.tag, "X": c.x, "y": c.y, "e": c.e, "built": built,
         "ecol": ecol, "backend": c.backend,
         "aNum": c.a_num, "aDen": c.a_den,
         "hasThr": c.thr2.is_some(), "thr2": c.thr2.unwrap_or(0),
@@ -180,7 +195,7 @@ fn fit_event(run: i64, c: &Case) -> Value {
         match c.variant.as_str() {
             "gaussian" => {
                 let (st, cls, cc, pri, th, va, ps, pv) =
-                    gauss_backend(&c.backend, &scaled_rows(&c.x, &exps), &y, &priors_f, &scaled_rows(&c.queries, &exps));
+                    gauss_backend(&c.backend, &scaled_rows(&c.x, &exps), &y, &priors_f, &scaled_rows(&c.queries, &exps), built == "fields");
                 if st != "ok" {
                     (st, json!({}), "none".into(), vec![])
                 } else {
@@ -195,9 +210,18 @@ fn fit_event(run: i64, c: &Case) -> Value {
                 }
             }
             "multinomial" => {
-                let mut par = MultinomialNBParameters::default().with_alpha(alpha);
-                if let Some(pf) = &priors_f {
-                    par = par.with_priors(pf.clone());
+                let mut par = MultinomialNBParameters::default();
+                if built == "fields" {
+                    par.alpha = alpha;
+                    par.priors = priors_f.clone();
+                } else {
+                    for step in built.split(',') {
+                        par = match (step, &priors_f) {
+                            ("alpha", _) => par.with_alpha(alpha),
+                            ("priors", Some(pf)) => par.with_priors(pf.clone()),
+                            _ => par,
+                        };
+                    }
                 }
                 match MultinomialNB::fit(&x, &y, par) {
                     Err(_) => ("err".into(), json!({}), "none".into(), vec![]),
@@ -213,10 +237,24 @@ fn fit_event(run: i64, c: &Case) -> Value {
                 }
             }
             "bernoulli" => {
-                let mut par = BernoulliNBParameters::default().with_alpha(alpha);
-                par.binarize = c.thr2.map(|t| t as f64 / 2.0);
-                if let Some(pf) = &priors_f {
-                    par = par.with_priors(pf.clone());
+                let mut par = BernoulliNBParameters::default();
+                if built == "fields" {
+                    par.alpha = alpha;
+                    par.priors = priors_f.clone();
+                    par.binarize = c.thr2.map(|t| t as f64 / 2.0);
+                } else {
+                    for step in built.split(',') {
+                        par = match (step, &priors_f, c.thr2) {
+                            ("alpha", _, _) => par.with_alpha(alpha),
+                            ("priors", Some(pf), _) => par.with_priors(pf.clone()),
+                            ("binarize", _, Some(t)) => par.with_binarize(t as f64 / 2.0),
+                            ("binarize", _, None) => {
+                                par.binarize = None; // "no binarisation" has no builder method
+                                par
+                            }
+                            _ => par,
+                        };
+                    }
                 }
                 match BernoulliNB::fit(&x, &y, par) {
                     Err(_) => ("err".into(), json!({}), "none".into(), vec![]),
@@ -232,7 +270,13 @@ fn fit_event(run: i64, c: &Case) -> Value {
                 }
             }
             _ => {
-                let par = CategoricalNBParameters::default().with_alpha(alpha);
+                let par = if built == "fields" {
+                    let mut p0 = CategoricalNBParameters::default();
+                    p0.alpha = alpha;
+                    p0
+                } else {
+                    CategoricalNBParameters::default().with_alpha(alpha)
+                };
                 match CategoricalNB::fit(&x, &y, par) {
                     Err(_) => ("err".into(), json!({}), "none".into(), vec![]),
                     Ok(m) => {
@@ -330,7 +374,7 @@ fn small_case(variant: &str, x: &[Vec<i64>], y: &[i64], alpha: (i64, i64), thr2:
         y: y.to_vec(),
         e: 0,
         ecol: vec![],
-        backend: "dense".into(),
+        backend: "dense".into(), built: String::new(),
         a_num: alpha.0,
         a_den: alpha.1,
         thr2: if variant == "bernoulli" { Some(thr2) } else { None },
@@ -527,7 +571,7 @@ fn gen_random(out: &mut Out, r: &mut StdRng, th: bool) -> i64 {
             vec![]
         };
         let backend = if variant == "gaussian" && it % 16 >= 12 { ["ndarray", "ndarray-f", "nalgebra"][(it / 16) % 3] } else { "dense" };
-        let c = Case { variant: variant.into(), x, y, e, ecol, backend: backend.into(), a_num: alpha.0, a_den: alpha.1, thr2, priors, queries,
+        let c = Case { variant: variant.into(), x, y, e, ecol, backend: backend.into(), built: String::new(), a_num: alpha.0, a_den: alpha.1, thr2, priors, queries,
                        model_preds: None, tag: "random".into() };
         out.emit(fit_event(run, &c));
     }
@@ -576,7 +620,7 @@ fn gen_gauss_shift(out: &mut Out, r: &mut StdRng, th: bool) -> i64 {
             vec![]
         };
         let backend = ["dense", "dense", "dense", "ndarray", "dense", "ndarray-f", "dense", "nalgebra"][(run as usize) % 8];
-        let c = Case { variant: "gaussian".into(), x, y, e, ecol, backend: backend.into(), a_num: 1, a_den: 1, thr2: None, priors: None, queries,
+        let c = Case { variant: "gaussian".into(), x, y, e, ecol, backend: backend.into(), built: String::new(), a_num: 1, a_den: 1, thr2: None, priors: None, queries,
                        model_preds: None, tag: "gauss-shift".into() };
         out.emit(fit_event(run, &c));
     }
@@ -630,7 +674,7 @@ fn gen_gauss_zero_prior(out: &mut Out, r: &mut StdRng, th: bool) -> i64 {
         queries.extend(queries_for(r, &x, 4));
         let e = if r.gen_bool(0.7) { 0 } else { r.gen_range(-3..=3) };
         run += 1;
-        let c = Case { variant: "gaussian".into(), x, y, e, ecol: vec![], backend: "dense".into(), a_num: 1, a_den: 1, thr2: None,
+        let c = Case { variant: "gaussian".into(), x, y, e, ecol: vec![], backend: "dense".into(), built: String::new(), a_num: 1, a_den: 1, thr2: None,
                        priors: Some((nu, den)), queries, model_preds: None, tag: "gauss-zero-prior".into() };
         out.emit(fit_event(run, &c));
     }
@@ -652,6 +696,7 @@ fn case_of(l: &Value, from_model: bool) -> Case {
         e: l["e"].as_i64().unwrap_or(0) as i32,
         ecol: l["ecol"].as_array().map(|a| a.iter().map(|v| v.as_i64().unwrap_or(0) as i32).collect()).unwrap_or_default(),
         backend: l["backend"].as_str().unwrap_or("dense").to_string(),
+        built: l["built"].as_str().unwrap_or("").to_string(),
         a_num: l["aNum"].as_i64().unwrap(),
         a_den: l["aDen"].as_i64().unwrap(),
         thr2: if l["hasThr"].as_bool().unwrap_or(false) { Some(l["thr2"].as_i64().unwrap()) } else { None },
